@@ -192,3 +192,48 @@ Definition components (touch : nat -> nat -> bool) (old : clustering) : clusteri
 (* Matrix as list of rows -> predicate (used by the driver and by the Examples). *)
 Definition touch_of_matrix (m : list (list bool)) (i j : nat) : bool :=
   nth j (nth i m []) false.
+
+(* ------------------------------------------------------------------------------------------ *)
+(* The newton-isolation test AS CODED, with its loops and breaks.  The radii are the ones STORED in the roots
+   (newton_radii[i] = s->root[i]->frad / drad, copied before the loops), the factor is the same nf, and the loops run
+   over ALL pairs of roots (not per previous cluster):
+
+     for (i = 0; i < s->n; i++)
+       {
+         for (j = 0; j < s->n; j++)
+           if ((i != j) && mps_?touchnwt (s, newton_radii, nf, i, j))
+             { newton_isolation = false;  break; }            <- leaves the inner loop only
+         if (!newton_isolation)  break;                          <- mps_mcluster only
+       }
+
+   [iso_inner] = the inner loop (true: left by break), [iso_outer_fd] = outer loop of mps_fcluster / mps_dcluster (goes on
+   after an inner break), [iso_outer_m] = outer loop of mps_mcluster (second break). *)
+Fixpoint iso_inner (touchN : nat -> nat -> bool) (i : nat) (js : list nat) : bool :=
+  match js with
+  | [] => false
+  | j :: t => if negb (i =? j) && touchN i j then true else iso_inner touchN i t
+  end.
+
+Fixpoint iso_outer_fd (touchN : nat -> nat -> bool) (n : nat) (is : list nat) (iso : bool) : bool :=
+  match is with
+  | [] => iso
+  | i :: t => iso_outer_fd touchN n t (if iso_inner touchN i (seq 0 n) then false else iso)
+  end.
+
+Fixpoint iso_outer_m (touchN : nat -> nat -> bool) (n : nat) (is : list nat) (iso : bool) : bool :=
+  match is with
+  | [] => iso
+  | i :: t =>
+    let iso' := if iso_inner touchN i (seq 0 n) then false else iso in
+    if iso' then iso_outer_m touchN n t iso' else iso'
+  end.
+
+Definition newton_iso_fd (touchN : nat -> nat -> bool) (n : nat) : bool := iso_outer_fd touchN n (seq 0 n) true.
+Definition newton_iso_m (touchN : nat -> nat -> bool) (n : nat) : bool := iso_outer_m touchN n (seq 0 n) true.
+
+(* one whole call of mps_fcluster / mps_dcluster, resp. mps_mcluster: override test as coded, then the traversal *)
+Definition cluster_step_fd (touchN touch : nat -> nat -> bool) (old : clustering) : option clustering :=
+  cluster_seq touch (newton_iso_fd touchN (length (concat old))) old.
+Definition cluster_step_m (pick : list nat -> nat) (touchN touch : nat -> nat -> bool) (old : clustering)
+  : option clustering :=
+  cluster_par pick touch (newton_iso_m touchN (length (concat old))) old.
